@@ -204,9 +204,9 @@ Lemma end_send_tp_sh c n i : 0 <= c -> nok c n -> vi n i ->
   end_send_tp (shift_node c n) i = shift_node c (end_send_tp n i) /\ nok c (end_send_tp n i).
 Proof.
   intros Hc Hk Hv. pose proof (nok_get_dev c n i Hk Hv) as (T1 & T2 & T3).
-  unfold end_send_tp. rewrite get_dev_sh by exact Hv. rewrite shn_w64. split.
+  unfold end_send_tp. rewrite get_dev_sh by exact Hv. rewrite shn_w64, (nk_w64 _ _ Hk). split.
   - rewrite <- upd_dev_sh; repeat (f_equal; try reflexivity); devrec.
-  - apply nok_upd_dev; [exact Hk|]. unfold dev_ok, set_tp. cbn [d_claim_timer d_next_dt_time d_src]. rewrite (nk_w64 _ _ Hk), dis64.
+  - apply nok_upd_dev; [exact Hk|]. unfold dev_ok, set_tp. cbn [d_claim_timer d_next_dt_time d_src]. rewrite dis64.
     repeat split; try assumption; try apply tbc_dis; lia.
 Qed.
 
@@ -296,7 +296,7 @@ Proof.
   destruct (nk_now _ _ K2) as [N1 N2].
   destruct (from_now_sh c (n_now n2) c_N2kAddressClaimTimeout Hc N1 N2 ltac:(unfold c_N2kAddressClaimTimeout; change (2^32) with 4294967296; lia)) as [F1 F2].
   rewrite F1.
-  assert (V2: vi n2 i) by (eapply vi_static; [eapply nstatic_trans; eassumption|exact Hv]).
+  assert (V2: vi n2 i) by (apply (vi_static n n2 i (nstatic_trans _ _ _ S1 S2) Hv)).
   destruct (set_claim_timer_sh c n2 i _ Hc K2 V2 F2) as [E3 K3]. rewrite E3. split; [reflexivity|exact K3].
 Qed.
 
